@@ -230,7 +230,7 @@ fn entry_text(case: &Case) -> String {
         }
     }
     o.push_str("ext1(\"locals\", name, counter, bump())\n");
-    o.push_str("return deps[1], LOADS\n");
+    o.push_str("return deps[1]\n");
     o
 }
 
@@ -526,7 +526,8 @@ pub fn main(args: &[String]) -> i32 {
         let output = if error == 0 && panic == 0 && hang == 0 { resources.get("out/out.lua").ok() } else { None };
         let output = output.map(|t| if how == "dup-body" { corrupt_dup_body(&t) } else { t });
         let ndefs: i64 = match (&output, c["rules"] == json!(1)) {
-            (Some(t), false) => t.matches("function __modImpl").count() as i64,
+            // each definition mentions its implementation three times: `local function __modImpl`, `typeof(__modImpl())`, `{c = __modImpl()}`
+            (Some(t), false) => (t.matches("__modImpl").count() / 3) as i64,
             _ => -1,
         };
         obs.emit(&json!({"id": id, "g": g, "error": error, "named": named, "panic": panic, "hang": hang, "ms": ms, "ndefs": ndefs,
